@@ -28,7 +28,14 @@ def evaluate(ctx, P, cases, which='model'):
         except Exception as e:                      # the harness itself failing is not an implementation outcome
             out = {'harness_exception': repr(e), 'trace': traceback.format_exc()[-800:]}
         recs.append({'case': c, 'impl': out})
-        lines.append(P.driver_line(c) if hasattr(P, 'driver_line') else c)
+        if hasattr(P, 'driver_line'):
+            import inspect
+            if len(inspect.signature(P.driver_line).parameters) >= 2:
+                lines.append(P.driver_line(c, out))
+            else:
+                lines.append(P.driver_line(c))
+        else:
+            lines.append(c)
     answers = vlib.run_driver(lines, which=which, cluster=getattr(P, 'CLUSTER', 'Z')) if lines else []
     for r, a in zip(recs, answers):
         r['model'] = a.get('model')
